@@ -25,6 +25,20 @@ type ctl struct {
 	viaBody bool // use Bind().Body() (source selected by Content-Type) instead of the per-source method
 	auto    bool // Bind().WithAutoHandling()
 	newDst  func() any
+	// prog: the handler performs several binds in this order on the one request (combined family, combo.go);
+	// every step binds into a fresh value of the shape and is recorded in obs.multi
+	prog []bindStep
+}
+
+// bindStep is one bind call of a handler that binds several sources of one request.
+type bindStep struct {
+	src     source
+	viaBody bool
+}
+
+type stepObs struct {
+	got any
+	err error
 }
 
 type obs struct {
@@ -32,19 +46,24 @@ type obs struct {
 	got      any
 	err      error
 	panicked string
+	multi    []stepObs
+	// redundant-configuration stations: what the configured StructValidator was handed
+	validated int
 }
 
 // station is one independent server (+ bundled client wired to it through an in-memory round tripper).
 type station struct {
-	app  *fiber.App
-	srv  *fasthttp.Server
-	cl   *client.Client
-	ctl  ctl
-	obs  obs
-	wire []byte // last request as the client serialised it
-	buf  bytes.Buffer
-	bw   *bufio.Writer
-	br   *bufio.Reader
+	app   *fiber.App
+	srv   *fasthttp.Server
+	cl    *client.Client
+	flv   flavor
+	envCl map[envOpt]*client.Client // clients carrying one client-level envelope option each (family.go)
+	ctl   ctl
+	obs   obs
+	wire  []byte // last request as the client serialised it
+	buf   bytes.Buffer
+	bw    *bufio.Writer
+	br    *bufio.Reader
 }
 
 func bindInto(c fiber.Ctx, k ctl, dst any) error {
@@ -95,12 +114,18 @@ func panicSite(stack string) string {
 	return "?"
 }
 
-func newStation(split bool) *station {
-	st := &station{}
-	app := fiber.New(fiber.Config{
+func newStation(split bool) *station { return newStationFlavor(split, flvPlain) }
+
+// newStationFlavor builds a server whose configuration carries fields that are redundant for binding (cfg.go).
+func newStationFlavor(split bool, flv flavor) *station {
+	st := &station{flv: flv}
+	cfg := fiber.Config{
 		EnableSplittingOnParsers: split,
 		ReadBufferSize:           1 << 17, // long slices in headers / query strings must fit the request head
-	})
+	}
+	flv.apply(st, &cfg)
+	app := fiber.New(cfg)
+	flv.register(st, app)
 	app.Use(func(c fiber.Ctx) (err error) {
 		defer func() {
 			if p := recover(); p != nil {
@@ -112,6 +137,24 @@ func newStation(split bool) *station {
 	})
 	app.All("/", func(c fiber.Ctx) error {
 		st.obs.calls++
+		if len(st.ctl.prog) > 0 {
+			// several binds on the one request, each into a fresh value
+			for _, step := range st.ctl.prog {
+				k := st.ctl
+				k.src, k.viaBody = step.src, step.viaBody
+				dst := st.ctl.newDst()
+				err := bindInto(c, k, dst)
+				st.obs.multi = append(st.obs.multi, stepObs{dst, err})
+				if err != nil {
+					st.obs.err = err
+					if st.ctl.auto {
+						return err
+					}
+					return c.Status(manualStatus).SendString(err.Error())
+				}
+			}
+			return c.SendString("ok")
+		}
 		dst := st.ctl.newDst()
 		err := bindInto(c, st.ctl, dst)
 		st.obs.got, st.obs.err = dst, err
